@@ -593,7 +593,48 @@ def e_more_names(rng, m):
     return "malformed sectiontype prefix"
 
 
-EDITS = [e_more_names, e_dup_type, e_dup_key, e_dup_attr, e_hyphen_underscore,
+def e_empty_references(rng, m):
+    """A reference attribute that is present but empty or blank."""
+    ts = [t for t in m["types"] if t["kind"] == "section"]
+    k = rng.choice(["implements", "extends", "keytype", "datatype",
+                    "handler", "schema-keytype"])
+    v = rng.choice(["", " "])
+    if k in ("implements", "extends", "keytype"):
+        t = _pick(rng, [t for t in ts if not t.get(k)])
+        if not t:
+            return None
+        t["extra_attrs"] = dict(t.get("extra_attrs") or {}, **{k: v})
+        return "%s=%r on a sectiontype" % (k, v)
+    if k == "schema-keytype":
+        m["extra_attrs"] = dict(m.get("extra_attrs") or {}, keytype=v)
+        return "keytype=%r on the schema" % v
+    cs, _ = conts(m)
+    ch = _pick(rng, [ch for c, _, _ in cs for ch in c["children"]
+                     if ch["kind"] in ("key", "multikey")])
+    if not ch:
+        return None
+    ch["extra_attrs"] = dict(ch.get("extra_attrs") or {}, **{k: v})
+    return "%s=%r on a key" % (k, v)
+
+
+def e_inside_text_element(rng, m):
+    """An element inside <description> / <example> (text only, per DTD)."""
+    inner = rng.choice(["<key name='inner9'/>", "<multikey name='inner9'/>",
+                        "<sectiontype name='inner9'/>",
+                        "<abstracttype name='inner9'/>",
+                        "<description>again</description>",
+                        "<import package='ZConfig.components.basic'/>"])
+    tag = rng.choice(["description", "example"])
+    xml = "<%s>some text %s more</%s>" % (tag, inner, tag)
+    ts = [t for t in m["types"] if t["kind"] == "section"]
+    target = rng.choice([m] + ts[:2])
+    if target.get("inner_xml"):
+        return None
+    target["inner_xml"] = xml
+    return "%s inside <%s>" % (inner.split()[0][1:].rstrip("/>"), tag)
+
+
+EDITS = [e_empty_references, e_inside_text_element, e_more_names, e_dup_type, e_dup_key, e_dup_attr, e_hyphen_underscore,
          e_inherited_clash, e_inherited_attr_clash, e_use_before_def, e_extends_abstract,
          e_implements_concrete, e_wild_without_attr, e_key_star,
          e_multisection_fixed, e_default_on_required, e_default_attr_on_wild,
